@@ -2,7 +2,7 @@
     (no memory error, nodes migrate between the lists without being freed or copied, the node the ghost
     list pushes out is unboxed exactly once), every history is safe, Drop frees every cell. *)
 From VF Require Import Base Lru TwoQ BaseFacts LruFacts Counts PrimFacts Tactics TwoQFacts
-  Heap HeapTwoQDef HeapFacts HeapOps HeapRun HeapPrim HeapFrame HeapMulti HeapRefine.
+  Iter CacheStep Heap HeapIterDef HeapTwoQDef HeapFacts HeapOps HeapRun HeapPrim HeapFrame HeapMulti HeapRefine HeapIter.
 From Coq Require Import List Arith Lia Permutation.
 Import ListNotations.
 Local Open Scope nat_scope.
@@ -417,7 +417,43 @@ Proof.
   exists h3. split; [reflexivity|]. intros a. apply (fam_tight _ _ _ Hf3). intros [].
 Qed.
 
-Definition lq_step (s : twoq) (o : qop) : res (twoq * hout) :=
+(** ** the iterators over one of the three lists *)
+Definition qop_ok (o : qop) : Prop :=
+  match o with QIter _ kd _ _ pb => ik_mut kd = true -> pb = [] | _ => True end.
+
+Theorem ht_iter_refines h s ls i kd pre pa pb ql pl :
+  RQ h s ls -> (ik_mut kd = true -> pb = []) ->
+  tq_list s i = Some ql -> CacheStep.qlist ls i = Some pl ->
+  exists h', h_iter_script h ql kd pre pa pb = HOk (h', fst (iter_script kd pre pa pb (items pl))) /\
+             RQ h' s (CacheStep.qwith_list ls i (with_items pl (snd (iter_script kd pre pa pb (items pl))))).
+Proof.
+  intros (lr & lf & lg & Hf & (Er & Cr) & (Ef & Cf) & (Eg & Cg) & Es & Ers) Hmut Hq Hp.
+  unfold tq_list in Hq. unfold CacheStep.qlist in Hp. unfold CacheStep.qwith_list.
+  destruct (Z.eqb i 0).
+  - inversion Hq; inversion Hp; subst ql pl.
+    destruct (fam_iter_script h [] (tq_r s) lr [(tq_f s, lf); (tq_g s, lg)] [] kd pre pa pb Hf Hmut) as (h' & l' & E & Hf' & He & _).
+    rewrite Er in E, He. exists h'. split; [exact E|].
+    exists l', lf, lg. split; [exact Hf'|]. repeat split; assumption.
+  - destruct (Z.eqb i 1).
+    + inversion Hq; inversion Hp; subst ql pl.
+      destruct (fam_iter_script h [(tq_r s, lr)] (tq_f s) lf [(tq_g s, lg)] [] kd pre pa pb Hf Hmut) as (h' & l' & E & Hf' & He & _).
+      rewrite Ef in E, He. exists h'. split; [exact E|].
+      exists lr, l', lg. split; [exact Hf'|]. repeat split; assumption.
+    + destruct (Z.eqb i 2); [|discriminate].
+      inversion Hq; inversion Hp; subst ql pl.
+      destruct (fam_iter_script h [(tq_r s, lr); (tq_f s, lf)] (tq_g s) lg [] [] kd pre pa pb Hf Hmut) as (h' & l' & E & Hf' & He & _).
+      rewrite Eg in E, He. exists h'. split; [exact E|].
+      exists lr, lf, l'. split; [exact Hf'|]. repeat split; assumption.
+Qed.
+
+Lemma tq_list_some h s ls i : RQ h s ls -> tq_list s i = None <-> CacheStep.qlist ls i = None.
+Proof.
+  intros _. unfold tq_list, CacheStep.qlist.
+  destruct (Z.eqb i 0); [split; discriminate|]. destruct (Z.eqb i 1); [split; discriminate|].
+  destruct (Z.eqb i 2); [split; discriminate|]. tauto.
+Qed.
+
+Definition lq_step (s : twoq) (o : HeapTwoQDef.qop) : res (twoq * hout) :=
   match o with
   | QPut k v => do (s1, r) <- qput s k v; Ok (s1, OPut r)
   | QGetMut k w => do (s1, r) <- qget_mut s k w; Ok (s1, OVal r)
@@ -426,13 +462,19 @@ Definition lq_step (s : twoq) (o : qop) : res (twoq * hout) :=
   | QContains k => Ok (s, OBool (qcontains s k))
   | QRemove k => Ok (fst (qremove s k), OVal (snd (qremove s k)))
   | QPurge => Ok (qpurge s, OUnit)
+  | HeapTwoQDef.QIter i kd pre pa pb =>
+    match CacheStep.qlist s i with
+    | Some pl => Ok (CacheStep.qwith_list s i (with_items pl (snd (iter_script kd pre pa pb (items pl)))),
+                     OIter kd (fst (iter_script kd pre pa pb (items pl))))
+    | None => Ok (s, OUnit)
+    end
   end.
 
 Theorem twoq_step_refines h s ls o :
-  RQ h s ls -> twoq_inv ls ->
+  RQ h s ls -> twoq_inv ls -> qop_ok o ->
   exists h' s' ls' r, ht_step h s o = HOk (h', s', r) /\ lq_step ls o = Ok (ls', r) /\ RQ h' s' ls' /\ twoq_inv ls'.
 Proof.
-  intros HR Hinv. destruct o as [k v|k w|k|k w|k|k|]; cbn [ht_step lq_step].
+  intros HR Hinv Hok. destruct o as [k v|k w|k|k w|k|k| |i kd pre pa pb]; cbn [ht_step lq_step].
   - destruct (ht_put_refines h s ls k v HR Hinv) as (h' & s' & ls' & r & -> & E & HR').
     destruct (qput_ok ls k v Hinv) as (s2 & r2 & E2 & Hinv2 & _). rewrite E in *. inversion E2; subst.
     cbn [hbind bind]. eauto 10.
@@ -447,29 +489,39 @@ Proof.
     destruct (qremove_ok ls k Hinv) as (Hinv2 & _). eauto 10.
   - destruct (ht_purge_refines h s ls HR) as (h' & s' & -> & HR'). cbn [hbind].
     destruct (qpurge_ok ls Hinv) as (Hinv2 & _). eauto 10.
+  - destruct (CacheStep.qlist ls i) as [pl|] eqn:Ep.
+    + destruct (tq_list s i) as [ql|] eqn:Eq; [|apply (tq_list_some h s ls i HR) in Eq; congruence].
+      destruct (ht_iter_refines h s ls i kd pre pa pb ql pl HR Hok Eq Ep) as (h' & -> & HR'). cbn [hbind].
+      destruct (qwith_list_inv ls i pl (with_items pl (snd (iter_script kd pre pa pb (items pl)))) Hinv Ep) as (Hinv2 & _);
+        [cbn [items with_items]; apply keys_iter_script|reflexivity|]. eauto 10.
+    + apply (tq_list_some h s ls i HR) in Ep. rewrite Ep. eauto 10.
 Qed.
 
-Fixpoint lq_run (s : twoq) (os : list qop) : res (twoq * list hout) :=
+Fixpoint lq_run (s : twoq) (os : list HeapTwoQDef.qop) : res (twoq * list hout) :=
   match os with
   | [] => Ok (s, [])
   | o :: rest => do (s1, r) <- lq_step s o; do (s2, rs) <- lq_run s1 rest; Ok (s2, r :: rs)
   end.
 
+Lemma twoq_run_refines : forall os h s ls, RQ h s ls -> twoq_inv ls -> Forall qop_ok os ->
+            exists h1 s1 ls1 outs, ht_run h s os = HOk (h1, s1, outs) /\ lq_run ls os = Ok (ls1, outs) /\ RQ h1 s1 ls1.
+Proof.
+ induction os as [|o rest IH]; intros h s ls HR Hinv Hok; [cbn; eauto 10|].
+    cbn [ht_run lq_run]. inversion Hok as [|? ? Ho Hrest]; subst.
+    destruct (twoq_step_refines h s ls o HR Hinv Ho) as (h1 & s1 & ls1 & r & -> & -> & HR1 & Hinv1). cbn [hbind bind].
+    destruct (IH h1 s1 ls1 HR1 Hinv1 Hrest) as (h2 & s2 & ls2 & outs & -> & -> & HR2). cbn [hbind bind]. eauto 10.
+Qed.
+
 Theorem twoq_history_safe size rs es os :
-  1 <= size -> 1 <= es ->
+  1 <= size -> 1 <= es -> Forall qop_ok os ->
   exists h s ls outs h',
     ht_run (fst (ht_new heap0 size rs es)) (snd (ht_new heap0 size rs es)) os = HOk (h, s, outs) /\
     lq_run (twoq_new size rs es) os = Ok (ls, outs) /\ RQ h s ls /\
     ht_drop h s = HOk h' /\ (forall a, cells h' a = Free).
 Proof.
-  intros H1 H2.
-  assert (G : forall os h s ls, RQ h s ls -> twoq_inv ls ->
-            exists h1 s1 ls1 outs, ht_run h s os = HOk (h1, s1, outs) /\ lq_run ls os = Ok (ls1, outs) /\ RQ h1 s1 ls1).
-  { clear. induction os as [|o rest IH]; intros h s ls HR Hinv; [cbn; eauto 10|].
-    cbn [ht_run lq_run].
-    destruct (twoq_step_refines h s ls o HR Hinv) as (h1 & s1 & ls1 & r & -> & -> & HR1 & Hinv1). cbn [hbind bind].
-    destruct (IH h1 s1 ls1 HR1 Hinv1) as (h2 & s2 & ls2 & outs & -> & -> & HR2). cbn [hbind bind]. eauto 10. }
-  destruct (G os _ _ _ (ht_new_refines size rs es) (twoq_new_inv size rs es H1 H2)) as (h & s & ls & outs & E1 & E2 & HR).
+  intros H1 H2 Hok.
+  pose proof twoq_run_refines as G.
+  destruct (G os _ _ _ (ht_new_refines size rs es) (twoq_new_inv size rs es H1 H2) Hok) as (h & s & ls & outs & E1 & E2 & HR).
   destruct (ht_drop_ok h s ls HR) as (h' & Ed & Hall).
   exists h, s, ls, outs, h'. auto.
 Qed.
